@@ -9,6 +9,7 @@ import (
 	"fmt"
 	"os"
 	"path/filepath"
+	"sync"
 
 	"github.com/hashicorp/raft-wal/types"
 	"go.etcd.io/bbolt"
@@ -36,6 +37,9 @@ var (
 // store. See repo README for reasons for this design choice and performance
 // implications.
 type BoltMetaDB struct {
+	// mu guards db against Close running concurrently with the stable store
+	// methods, which the WAL calls without holding its write lock.
+	mu  sync.RWMutex
 	dir string
 	db  *bbolt.DB
 }
@@ -152,6 +156,9 @@ func safeInitBoltDB(dir string) error {
 func (db *BoltMetaDB) Load(dir string) (types.PersistentState, error) {
 	var state types.PersistentState
 
+	db.mu.Lock()
+	defer db.mu.Unlock()
+
 	if err := db.ensureOpen(dir); err != nil {
 		return state, err
 	}
@@ -183,6 +190,9 @@ func (db *BoltMetaDB) Load(dir string) (types.PersistentState, error) {
 // time and it will never be called concurrently with Load however it may be
 // called concurrently with Get/SetStable operations.
 func (db *BoltMetaDB) CommitState(state types.PersistentState) error {
+	db.mu.RLock()
+	defer db.mu.RUnlock()
+
 	if db.db == nil {
 		return ErrUnintialized
 	}
@@ -209,6 +219,9 @@ func (db *BoltMetaDB) CommitState(state types.PersistentState) error {
 // GetStable returns a value from stable store or nil if it doesn't exist. May
 // be called concurrently by multiple threads.
 func (db *BoltMetaDB) GetStable(key []byte) ([]byte, error) {
+	db.mu.RLock()
+	defer db.mu.RUnlock()
+
 	if db.db == nil {
 		return nil, ErrUnintialized
 	}
@@ -235,6 +248,9 @@ func (db *BoltMetaDB) GetStable(key []byte) ([]byte, error) {
 // SetStable stores a value from stable store. May be called concurrently with
 // GetStable.
 func (db *BoltMetaDB) SetStable(key []byte, value []byte) error {
+	db.mu.RLock()
+	defer db.mu.RUnlock()
+
 	if db.db == nil {
 		return ErrUnintialized
 	}
@@ -260,6 +276,8 @@ func (db *BoltMetaDB) SetStable(key []byte, value []byte) error {
 
 // Close implements io.Closer
 func (db *BoltMetaDB) Close() error {
+	db.mu.Lock()
+	defer db.mu.Unlock()
 	if db.db == nil {
 		return nil
 	}
